@@ -8,6 +8,15 @@ ASSUME="rustc/std, secp256k1, bitcoin (hashes, tx/witness serialisation, Sighash
 
 # id -> (technique, level text, design_ref)
 BUILT={
+ "C01":("bounded-exhaustive term/world enumeration; every library satisfaction replayed on an independent reference Script machine",
+        "Every B term up to the node bound in every descriptor wrapping x every subset of signatures/preimages x lock grid x {non-malleable, malleable} x {get_satisfaction, into_plan+Plan::satisfy}: the returned scriptSig/witness is executed by the reference Script machine under standardness flags against the real transaction digest. Through hook H1 every node-level satisfaction and dissatisfaction of every term is executed on its fragment script. Exhaustive within the bounds stated in the evidence.",
+        "3 C01"),
+ "C02":("bounded-exhaustive enumeration; refusals decided by exhaustive nondeterministic witness search of the reference Script machine",
+        "Same enumeration as C01. Every refusal (malleable mode: all; non-malleable: sane descriptors with all preimages) is decided by depth-first exploration of ALL witnesses over the caller's alphabet on the reference Script machine (states/transitions reported); a found witness is re-validated concretely before the library is accused. H1: every node typed dissatisfiable must offer a dissatisfaction from public data.",
+        "3 C02"),
+ "C09":("bounded-exhaustive enumeration; measured execution traces vs static figures",
+        "Same enumeration as C01; every satisfaction the library returns (all asset subsets, both modes, both production paths) is measured on the real data and on the reference machine's trace and compared with script_size, pk_cost, max_satisfaction_*, sat_data, max_weight_to_satisfy and the plan's announced sizes.",
+        "3 C09"),
  "C19":("bounded-exhaustive all-pairs/all-triples exploration over the BFS term universe",
         "Every ordered pair (and every triple of a slice) of all well-typed terms up to the node bound plus their k/arity/leaf neighbours is compared through ==, cmp and hash against the harness's structural identity; descriptors, tap trees and policies likewise over an enumerated family. Exhaustive within the bound, nothing sampled.",
         "3 C19"),
